@@ -64,6 +64,8 @@ func runC14(p *Program, r *Result) {
 	}
 	checkLoops(p, r)
 	checkLimits(p, r)
+	r.Rule("R14.6", "armor failures stay typed through the layers above: source errors are wrapped with %w", 5)
+	checkSourceErrorsWrapped(p, r, libPkgs)
 	for i, e := range table {
 		if !used[i] {
 			r.cur = "R14.2"
